@@ -376,9 +376,9 @@ func (c03) Exec(h []Ev) []Ev {
 					delete(e, "fit")
 				}
 				if op == "SetTransportPrivateData" {
-					err = af.SetTransportPrivateData(GB(e["arg"]))
+					err = af.SetTransportPrivateData(nilIfEmpty(e, GB(e["arg"])))
 				} else {
-					err = af.SetAdaptationFieldExtension(GB(e["arg"]))
+					err = af.SetAdaptationFieldExtension(nilIfEmpty(e, GB(e["arg"])))
 				}
 			case "SetAdaptationField":
 				var src packet.Packet
